@@ -1405,5 +1405,5 @@ def generate(ctx):
                       opens="DPL.Cont")
     ctx.count("formula_anchors", r["obligations"])
     if r["errors"]:
-        r["error"] = "; ".join(r["errors"])
+        r["unavailable"] = r["errors"]      # anchors that could not be located / translated (not failed obligations)
     return r
